@@ -161,9 +161,17 @@ fn simple_condition_regex() -> &'static Pattern {
     })
 }
 
+/// Delimiters of a masked string literal body (see `GRLParser::mask_string_literals`)
+const MASK_START: char = '\u{1}';
+const MASK_END: char = '\u{2}';
+
 /// GRL (Grule Rule Language) Parser
 /// Parses Grule-like syntax into Rule objects
-pub struct GRLParser;
+#[derive(Debug, Default)]
+pub struct GRLParser {
+    /// Bodies of the string literals of the text being parsed (see `mask_string_literals`)
+    literals: Vec<String>,
+}
 
 /// Parsed rule attributes from GRL header
 #[derive(Debug, Default)]
@@ -217,13 +225,13 @@ impl GRLParser {
     /// }
     /// ```
     pub fn parse_rule(grl_text: &str) -> Result<Rule> {
-        let mut parser = GRLParser;
+        let mut parser = GRLParser::default();
         parser.parse_single_rule(grl_text)
     }
 
     /// Parse multiple rules from GRL text
     pub fn parse_rules(grl_text: &str) -> Result<Vec<Rule>> {
-        let mut parser = GRLParser;
+        let mut parser = GRLParser::default();
         parser.parse_multiple_rules(grl_text)
     }
 
@@ -245,24 +253,27 @@ impl GRLParser {
     /// }
     /// ```
     pub fn parse_with_modules(grl_text: &str) -> Result<ParsedGRL> {
-        let mut parser = GRLParser;
+        let mut parser = GRLParser::default();
         parser.parse_grl_with_modules(grl_text)
     }
 
     fn parse_grl_with_modules(&mut self, grl_text: &str) -> Result<ParsedGRL> {
         let mut result = ParsedGRL::new();
 
+        // Comments are removed and string literals are masked before any structural scanning
+        let prepared = self.prepare(grl_text);
+
         // First, parse and register all modules
-        for module_match in defmodule_split_regex().find_iter(grl_text) {
-            let module_def = module_match.as_str();
-            self.parse_and_register_module(module_def, &mut result.module_manager)?;
+        for module_match in defmodule_split_regex().find_iter(&prepared) {
+            let module_def = self.unmask(module_match.as_str());
+            self.parse_and_register_module(&module_def, &mut result.module_manager)?;
         }
 
         // Remove all defmodule blocks from text before parsing rules
-        let rules_text = defmodule_split_regex().replace_all(grl_text, "");
+        let rules_text = defmodule_split_regex().replace_all(&prepared, "");
 
         // Then parse all rules from cleaned text
-        let rules = self.parse_multiple_rules(&rules_text)?;
+        let rules = self.parse_prepared_rules(&rules_text)?;
 
         // Try to assign rules to modules based on comments
         for rule in rules {
@@ -402,19 +413,25 @@ impl GRLParser {
     }
 
     fn parse_single_rule(&mut self, grl_text: &str) -> Result<Rule> {
-        let cleaned = self.clean_text(&Self::strip_comments(grl_text));
+        let prepared = self.prepare(grl_text);
+        self.parse_prepared_rule(&prepared)
+    }
+
+    /// Parse one rule from text that went through `prepare`
+    fn parse_prepared_rule(&mut self, prepared_text: &str) -> Result<Rule> {
+        let cleaned = self.clean_text(prepared_text);
 
         // Extract rule components using cached regex
         let captures =
             rule_regex()
                 .captures(&cleaned)
                 .ok_or_else(|| RuleEngineError::ParseError {
-                    message: format!("Invalid GRL rule format. Input: {}", cleaned),
+                    message: format!("Invalid GRL rule format. Input: {}", self.unmask(&cleaned)),
                 })?;
 
         // Rule name can be either quoted (group 1) or unquoted (group 2)
         let rule_name = if let Some(quoted_name) = captures.get(1) {
-            quoted_name.to_string()
+            self.unmask(quoted_name)
         } else if let Some(unquoted_name) = captures.get(2) {
             unquoted_name.to_string()
         } else {
@@ -478,13 +495,17 @@ impl GRLParser {
     }
 
     fn parse_multiple_rules(&mut self, grl_text: &str) -> Result<Vec<Rule>> {
+        // Comments are removed (and string literals masked) first so that their content can
+        // never look like a rule boundary
+        let prepared = self.prepare(grl_text);
+        self.parse_prepared_rules(&prepared)
+    }
+
+    /// Parse all rules from text that went through `prepare`
+    fn parse_prepared_rules(&mut self, grl_text: &str) -> Result<Vec<Rule>> {
         // Split by rule boundaries - support both quoted and unquoted rule names
         // Use DOTALL flag to match newlines in rule body
         let mut rules = Vec::new();
-
-        // Comments are removed first so that their content can never look like a rule boundary
-        let grl_text = Self::strip_comments(grl_text);
-        let grl_text = grl_text.as_str();
 
         for rule_match in rule_split_regex().find_iter(grl_text) {
             // the regex engine can report a start offset inside a multi-byte char that directly
@@ -494,7 +515,7 @@ impl GRLParser {
                 .ok_or_else(|| RuleEngineError::ParseError {
                     message: "Invalid rule boundary (not on a character boundary)".to_string(),
                 })?;
-            let rule = self.parse_single_rule(rule_text)?;
+            let rule = self.parse_prepared_rule(rule_text)?;
             rules.push(rule);
         }
 
@@ -584,7 +605,7 @@ impl GRLParser {
 
         if let Some(captures) = regex.captures(header) {
             if let Some(value) = captures.get(1) {
-                return Ok(Some(value.to_string()));
+                return Ok(Some(self.unmask(value)));
             }
         }
 
@@ -680,6 +701,78 @@ impl GRLParser {
                 out.push(ch);
             }
         }
+        out
+    }
+
+    /// What every entry point does to the source text before any structural scanning:
+    /// comments are removed and string literals are masked
+    fn prepare(&mut self, grl_text: &str) -> String {
+        let (masked, literals) = Self::mask_string_literals(&Self::strip_comments(grl_text));
+        self.literals = literals;
+        masked
+    }
+
+    /// String literals are opaque to the parser: the body of every complete '...' / "..." literal
+    /// (a literal never spans lines) is moved into a table and replaced by
+    /// `MASK_START <index> MASK_END` - text without any GRL metacharacter or keyword.
+    /// `unmask` restores the bodies where text leaves the parser.
+    fn mask_string_literals(text: &str) -> (String, Vec<String>) {
+        let mut out = String::with_capacity(text.len());
+        let mut literals = Vec::new();
+        let mut chars = text.chars();
+        while let Some(ch) = chars.next() {
+            out.push(ch);
+            if ch == '"' || ch == '\'' {
+                let rest = chars.as_str();
+                match rest.find(|c| c == ch || c == '\n') {
+                    Some(end) if rest[end..].starts_with(ch) => {
+                        if end > 0 {
+                            out.push(MASK_START);
+                            out.push_str(&literals.len().to_string());
+                            out.push(MASK_END);
+                            literals.push(rest[..end].to_string());
+                        }
+                        out.push(ch);
+                        chars = rest[end + 1..].chars();
+                    }
+                    // not closed on its line: not a literal, kept as written
+                    Some(end) => {
+                        out.push_str(&rest[..=end]);
+                        chars = rest[end + 1..].chars();
+                    }
+                    None => {
+                        out.push_str(rest);
+                        break;
+                    }
+                }
+            }
+        }
+        (out, literals)
+    }
+
+    /// Inverse of `mask_string_literals` on any piece of the masked text
+    fn unmask(&self, text: &str) -> String {
+        let mut out = String::with_capacity(text.len());
+        let mut rest = text;
+        while let Some(start) = rest.find(MASK_START) {
+            out.push_str(&rest[..start]);
+            let after = &rest[start + MASK_START.len_utf8()..];
+            let body = after.find(MASK_END).and_then(|end| {
+                let index = after[..end].parse::<usize>().ok()?;
+                Some((self.literals.get(index)?, end))
+            });
+            match body {
+                Some((body, end)) => {
+                    out.push_str(body);
+                    rest = &after[end + MASK_END.len_utf8()..];
+                }
+                None => {
+                    out.push(MASK_START);
+                    rest = after;
+                }
+            }
+        }
+        out.push_str(rest);
         out
     }
 
@@ -931,11 +1024,11 @@ impl GRLParser {
 
         Ok(ConditionGroup::accumulate(
             result_var,
-            source_pattern,
-            extract_field,
-            source_conditions,
-            function,
-            function_arg,
+            self.unmask(&source_pattern),
+            self.unmask(&extract_field),
+            source_conditions.iter().map(|c| self.unmask(c)).collect(),
+            self.unmask(&function),
+            self.unmask(&function_arg),
         ))
     }
 
@@ -1114,7 +1207,7 @@ impl GRLParser {
         // Check for stream pattern syntax: "var: Type from stream(...)"
         #[cfg(feature = "streaming")]
         if clause_to_parse.contains("from stream(") {
-            return self.parse_stream_pattern_condition(clause_to_parse);
+            return self.parse_stream_pattern_condition(&self.unmask(clause_to_parse));
         }
 
         // === MULTI-FIELD PATTERNS ===
@@ -1208,7 +1301,7 @@ impl GRLParser {
             } else {
                 args_str
                     .split(',')
-                    .map(|arg| arg.trim().to_string())
+                    .map(|arg| self.unmask(arg.trim()))
                     .collect()
             };
 
@@ -1239,7 +1332,7 @@ impl GRLParser {
             } else {
                 args_str
                     .split(',')
-                    .map(|arg| arg.trim().to_string())
+                    .map(|arg| self.unmask(arg.trim()))
                     .collect()
             };
 
@@ -1260,7 +1353,7 @@ impl GRLParser {
         // Also support arithmetic expressions like: User.Age % 3 == 0, User.Price * 2 > 100
         let captures = condition_regex().captures(clause_to_parse).ok_or_else(|| {
             RuleEngineError::ParseError {
-                message: format!("Invalid condition format: {}", clause_to_parse),
+                message: format!("Invalid condition format: {}", self.unmask(clause_to_parse)),
             }
         })?;
 
@@ -1284,7 +1377,7 @@ impl GRLParser {
         {
             // This is an arithmetic expression - use Test CE
             // Format: test(left_side operator value)
-            let test_expr = format!("{} {} {}", left_side, operator_str, value_str);
+            let test_expr = format!("{} {} {}", left_side, operator_str, self.unmask(value_str));
             let condition = Condition::with_test(test_expr, vec![]);
             Ok(ConditionGroup::single(condition))
         } else {
@@ -1360,7 +1453,7 @@ impl GRLParser {
             if trimmed.len() >= 2 && trimmed.starts_with(quote) && trimmed.ends_with(quote) {
                 let unquoted = &trimmed[1..trimmed.len() - 1];
                 if !unquoted.contains(quote) {
-                    return Ok(Value::String(unquoted.to_string()));
+                    return Ok(Value::String(self.unmask(unquoted)));
                 }
             }
         }
@@ -1390,12 +1483,12 @@ impl GRLParser {
         // Expression with arithmetic operators (e.g., "Order.quantity * Order.price")
         // Detect: contains operators AND (contains field reference OR multiple tokens)
         if self.is_expression(trimmed) {
-            return Ok(Value::Expression(trimmed.to_string()));
+            return Ok(Value::Expression(self.unmask(trimmed)));
         }
 
         // Field reference (like User.Name) - needs runtime evaluation, not a literal string
         if trimmed.contains('.') {
-            return Ok(Value::Expression(trimmed.to_string()));
+            return Ok(Value::Expression(self.unmask(trimmed)));
         }
 
         // Variable reference (identifier without quotes or dots)
@@ -1406,7 +1499,7 @@ impl GRLParser {
         }
 
         // Default to string
-        Ok(Value::String(trimmed.to_string()))
+        Ok(Value::String(self.unmask(trimmed)))
     }
 
     /// Check if a string is a valid identifier (variable name)
@@ -1549,7 +1642,7 @@ impl GRLParser {
         // Check for compound assignment operators first (+=, -=, etc.)
         if let Some(plus_eq_pos) = trimmed.find("+=") {
             // Append operator: Field += Value
-            let field = trimmed[..plus_eq_pos].trim().to_string();
+            let field = self.unmask(trimmed[..plus_eq_pos].trim());
             let value_str = trimmed[plus_eq_pos + 2..].trim();
             let value = self.parse_value(value_str)?;
 
@@ -1558,7 +1651,7 @@ impl GRLParser {
 
         // Assignment: Field = Value
         if let Some(eq_pos) = trimmed.find('=') {
-            let field = trimmed[..eq_pos].trim().to_string();
+            let field = self.unmask(trimmed[..eq_pos].trim());
             let value_str = trimmed[eq_pos + 1..].trim();
             let value = self.parse_value(value_str)?;
 
@@ -1573,11 +1666,7 @@ impl GRLParser {
             match function_name.to_lowercase().as_str() {
                 "retract" => {
                     // Extract object name from $Object
-                    let object_name = if let Some(stripped) = args_str.strip_prefix('$') {
-                        stripped.to_string()
-                    } else {
-                        args_str.to_string()
-                    };
+                    let object_name = self.unmask(args_str.strip_prefix('$').unwrap_or(args_str));
                     Ok(ActionType::Retract {
                         object: object_name,
                     })
@@ -1657,7 +1746,7 @@ impl GRLParser {
                 }
                 "setworkflowdata" | "set_workflow_data" => {
                     // Parse key=value: SetWorkflowData("key=value")
-                    let data_str = args_str.trim();
+                    let data_str = self.unmask(args_str.trim());
 
                     // Simple key=value parsing
                     let (key, value) = if let Some(eq_pos) = data_str.find('=') {
@@ -1693,7 +1782,7 @@ impl GRLParser {
                 action_type: "statement".to_string(),
                 params: {
                     let mut params = HashMap::new();
-                    params.insert("statement".to_string(), Value::String(trimmed.to_string()));
+                    params.insert("statement".to_string(), Value::String(self.unmask(trimmed)));
                     params
                 },
             })
@@ -1719,7 +1808,7 @@ impl GRLParser {
                 || trimmed.contains('/')
             {
                 // For now, store as string - the engine will evaluate
-                args.push(Value::String(trimmed.to_string()));
+                args.push(Value::String(self.unmask(trimmed)));
             } else {
                 args.push(self.parse_value(trimmed)?);
             }
